@@ -165,6 +165,21 @@ def check(c):
                      c.where(cm, ex), 'commit is after (and never before) '
                      'the statement loop')
     single_transaction_rules(c)
+    # a batch the public DB refused stays queued in its DAO and is retried by
+    # the next process_queued_ops(): the two execute_queued_items() calls
+    # run on every call once the DAOs exist -- also when nothing new was
+    # queued (quiet main-loop iterations, the last call before shutdown)
+    pq = c.func('workflow_db_mgr',
+                'WorkflowDatabaseManager.process_queued_ops')
+    for dao in ('pri_dao', 'pub_dao'):
+        ex_ = c.find(pq, f'self.{dao}.execute_queued_items()')
+        c.floor('C21.retry', f'{pq.fq} :: self.{dao}.execute_queued_items()',
+                len(ex_), 1)
+        for n in ex_:
+            c.guard_only('C21.retry', n, ['!(self.pri_dao is None)',
+                                          '!(self.pub_dao is None)'], pq,
+                         what='runs on every call (retry of a retained '
+                         'public batch);')
     # a failed statement always reaches the handler of the batch: the
     # statement helper re-raises on every path of its own handler(s)
     es = c.func('rundb', 'CylcWorkflowDAO._execute_stmt')
@@ -338,6 +353,15 @@ def check(c):
 
 
 VARIANTS = [
+    ('no-retry-when-nothing-new-queued', 'cylc/flow/workflow_db_mgr.py',
+     '''        # Record workflow parameters and tasks in pool
+        # Record any broadcast settings to be dumped out
+        if any(self.db_deletes_map.values()):''',
+     '''        if not (any(self.db_deletes_map.values())
+                or any(self.db_inserts_map.values())
+                or any(self.db_updates_map.values())):
+            return
+        if any(self.db_deletes_map.values()):''', 'C21.retry'),
     ('public-failure-returns-false', 'cylc/flow/rundb.py',
      '''            if self.is_public:
                 LOG.info(err_log)
